@@ -119,10 +119,12 @@ vectors by default. To use Monte Carlo estimation, ``samples`` can be set to the
 desired to be used in the estimation. Similar to the :func:`~.apps.sample.sample` function, these two
 functions include a ``loss`` argument to specify the proportion of photons lost in the simulated GBS device.
 """
+import math
 from collections import Counter
 from typing import Generator, Union
 
 import networkx as nx
+
 import numpy as np
 from scipy.special import factorial
 
@@ -309,12 +311,22 @@ def orbit_cardinality(orbit: list, modes: int) -> Union[int, float]:
     sample = orbit + [0] * (modes - len(orbit))
     counts = list(Counter(sample).values())
 
-    # factorials of numbers larger than 170 do not fit into a int,
-    # hence return float using the qarg `exact=True`
-    if modes > 170:
-        return factorial(modes, exact=True) / np.prod(factorial(counts, exact=True))
+    # exact integer arithmetic: the floating point quotient is already off by one for 24 modes
+    # (int(24! / 23!) == 23), and integer arrays overflow silently
+    denominator = 1
+    for c in counts:
+        denominator *= math.factorial(c)
+    cardinality = math.factorial(modes) // denominator
 
-    return int(factorial(modes, exact=False) / np.prod(factorial(counts, exact=False)))
+    # factorials of numbers larger than 170 do not fit into a float; keep returning a float
+    # there, as before
+    if modes > 170:
+        try:
+            return float(cardinality)
+        except OverflowError:
+            return cardinality
+
+    return cardinality
 
 
 def event_cardinality(photon_number: int, max_count_per_mode: int, modes: int) -> int:
